@@ -87,3 +87,18 @@ Definition startup_is_throw (m : list (bytes * bytes)) : bool :=
 (* the option an accessor call touches *)
 Definition sop_key (op : sop) : startup_key :=
   match op with SSet k _ => k | SSetCompression _ => KCompression | SSetThrow _ => KThrowOnOverload end.
+
+Definition key_eqb (a b : startup_key) : bool := bytes_eqb (key_bytes a) (key_bytes b).
+
+(* the observation of a STARTUP message through its getters *)
+Definition observe (m : list (bytes * bytes)) (k : startup_key) : bytes :=
+  match k with
+  | KCompression => startup_get_compression m
+  | KThrowOnOverload => if startup_is_throw m then [49] else []
+  | _ => startup_get m k
+  end.
+(* what a setter call stores, as seen through the matching getter *)
+Definition stored (op : sop) : bytes :=
+  match op with SSet _ v => v | SSetCompression c => c | SSetThrow b => if b then [49] else [] end.
+Definition sop_wf (op : sop) : bool := match op with SSet k _ => plain_key k | _ => true end.
+
